@@ -1,4 +1,4 @@
-import BobModel.Proofs.C01Done
+import BobModel.Proofs.C01Noop
 /-
 C01 — incremental build equals clean build: property theorems about the builder model
 (Model/Builder.lean).  Definitions and lemmas live in Proofs/C01*.lean:
@@ -132,6 +132,37 @@ theorem incremental_eq_clean (E : Env) (dev : Bool) (Γ : Path → List (Dir × 
       fuelB rB hB).2
     intro u hu
     rw [← h2, dA u hu, dB u hu]
+
+/-- **a repeated build is a no-op**: an invocation that immediately follows a successful one (same
+project state, same flags, no `--force`) creates and prunes nothing, moves nothing to the attic and
+starts no script except those of indeterministic checkouts - in develop and in release mode
+(`QuietOp`, `Proofs/C01Noop.lean`). -/
+theorem rebuild_is_noop (E : Env) (dev : Bool) (Γ : Path → List (Dir × Digest)) (cfg : Cfg) (T : Step)
+    (hinj : Function.Injective E.H) (hdev : cfg.cleanBuild = false → dev = true)
+    (hsem : SemHyp E dev T) (hwf : TreeWF Γ T) (hnd : cfg.noDeps = false) (hco : cfg.checkoutOnly = false)
+    (hforce : cfg.force = false)
+    (st : St) (h : Truthful E dev Γ st) (fuel1 : Nat) (r1 : Run) (hok1 : invoke E cfg T fuel1 st = .ok () r1)
+    (fuel2 : Nat) (r2 : Run) (hok2 : invoke E cfg T fuel2 r1.st = .ok () r2) :
+    ∀ op ∈ r2.log, QuietOp T op := by
+  have H : DHyp E dev Γ cfg T :=
+    ⟨⟨prune_invalidates_first.1, prune_invalidates_first.2, hinj, hdev⟩, hsem, hwf, hnd⟩
+  have hi : DInv E dev Γ T { st := st, mem := Mem.init, fuel := fuel1, log := [] } :=
+    ⟨h, by intro u _ x hx; simp [Mem.init] at hx, by intro u _ hr; simp [Ran, Mem.init] at hr⟩
+  have hk := ((cstep_all H T) (fun _ hu => hu)).1 _ hi
+  unfold invoke cook at hok1 hok2
+  rw [hco] at hok1 hok2
+  unfold wp at hk
+  rw [hok1] at hk
+  have hstable : Stable E T r1.st := by
+    intro u hu
+    have hu' := (reach_sub_subtrees T).1 u hu
+    exact ⟨done_of_ran hk.inv hu' (hk.ran u hu), settled_of_ran hk.inv hu' (hk.ran u hu)⟩
+  have N : NHyp E dev Γ cfg T r1.st := ⟨hsem, hwf, hforce, hstable⟩
+  have h2 := ((nstep_all N T) (fun _ hu => hu)).1 { st := r1.st, mem := Mem.init, fuel := fuel2, log := [] }
+    ⟨Same.refl _, by intro op hop; cases hop⟩
+  unfold wp at h2
+  rw [hok2] at h2
+  exact h2.quiet
 
 /-! ## non-vacuity: a concrete project satisfying every hypothesis
 
